@@ -20,10 +20,27 @@ class FuncMap(dict):
 
 
 def split_top(s, sep=","):
-    """split on sep at nesting depth 0 of ()[]{}<> (ignores '->' and '=>')"""
+    """split on sep at nesting depth 0 of ()[]{}<> (ignores '->' and '=>', and anything inside "...")"""
     out, depth, cur, i = [], 0, [], 0
+    inq = False
     while i < len(s):
         c = s[i]
+        if inq:
+            if c == "\\" and i + 1 < len(s):
+                cur.append(c)
+                cur.append(s[i + 1])
+                i += 2
+                continue
+            if c == '"':
+                inq = False
+            cur.append(c)
+            i += 1
+            continue
+        if c == '"':
+            inq = True
+            cur.append(c)
+            i += 1
+            continue
         if c in "([{<":
             depth += 1
         elif c in ")]}":
